@@ -3,5 +3,5 @@ CONSTANTS Sizes <- MCSizes9
           Mut = "none"
 VIEW NoHist
 CONSTRAINT ShortHist
-INVARIANTS SeekAccepted SeekInside SeekUpAccepted StoredTrue
+INVARIANTS SeekAccepted SeekInside SeekUpAccepted PartialAccepted StoredTrue
 CHECK_DEADLOCK FALSE
